@@ -324,6 +324,7 @@ def c20(ctx):
     # design level: the debouncer and the throttle as written, one action per critical section, timers firing
     # without the lock; each with its negative controls
     ctx.model_check("DebounceImpl", "DebounceImpl%s.cfg" % deep, workers=8)
+    ctx.model_check("DebounceImpl", "DebounceImpl_delay.cfg")   # Delay = one caller, one arming, Stop as the cancel
     ctx.model_check("DebounceImpl", "DebounceImpl_nolock.cfg", expect_violation="OneArmed")
     ctx.model_check("DebounceImpl", "DebounceImpl_nostop.cfg", expect_violation="OneArmed")
     ctx.model_check("ThrottleImpl", "ThrottleImpl.cfg")
